@@ -19,6 +19,13 @@ Definition hdr_law (Q : pyprims) (L : nat) : Prop :=
   forall buf off x, length buf = L -> off mod 8 = 0 -> off + header_bits <= L -> (x < 2 ^ 32)%N ->
     p_hdr Q buf off x = Some (firstn off buf ++ bits_of_N header_bits x ++ skipn (off + header_bits) buf).
 
+(* the bulk array adders: the whole bit string at once, any length (an empty array is a no-op), under the same invariant *)
+Definition bulk_law (Q : pyprims) (L : nat) : Prop :=
+  forall buf off v, length buf = L -> off + length v <= L -> zero_from buf off ->
+    p_bits Q buf off v = Some (firstn off buf ++ v ++ skipn (off + length v) buf) /\
+    forall w, 0 < w -> w mod 8 = 0 -> length v mod w = 0 ->
+      p_std Q w buf off v = Some (firstn off buf ++ v ++ skipn (off + length v) buf).
+
 Definition stored (buf : list bool) (off : nat) (bits : list bool) : list bool :=
   firstn off buf ++ bits ++ skipn (off + length bits) buf.
 
@@ -75,6 +82,7 @@ Section PyRefine.
   Hypothesis HL : L mod 8 = 0.
   Hypothesis Hadd : add_law Q L.
   Hypothesis Hhdr : hdr_law Q L.
+  Hypothesis Hbulk : bulk_law Q L.
 
   Lemma p_set_wrote buf off v : length buf = L -> 1 <= length v -> off + length v <= L -> zero_from buf off ->
     pwrote buf off v (p_set Q buf off v).
@@ -187,6 +195,45 @@ Section PyRefine.
     - apply IH; [assumption | assumption | assumption | lia | assumption].
   Qed.
 
+  (* the bulk adders store the concatenated element encodings: the same result as the element loop *)
+  Lemma pw_array_sim e l buf off loop : wf_ty e = true -> length buf = L -> off + length l * fmax e <= L -> zero_from buf off ->
+    psim buf off (enc_list (enc_field e) l) loop ->
+    psim buf off (enc_list (enc_field e) l) (pw_array Q enc_prim e l buf off loop).
+  Proof.
+    intros Hwf Hl Hfit Hz Hloop. unfold pw_array.
+    assert (Hgen : forall p, e = TPrim p ->
+              psim buf off (enc_list (enc_field e) l)
+                (match enc_list (enc_prim p) l with
+                 | Ok B => match p_bits Q buf off B with Some b => Ok (b, off + length B) | None => Err ETooSmall end
+                 | Err e0 => Err e0
+                 end) /\
+              (py_std_w (prim_bits p) = true ->
+               psim buf off (enc_list (enc_field e) l)
+                (match enc_list (enc_prim p) l with
+                 | Ok B => match p_std Q (prim_bits p) buf off B with Some b => Ok (b, off + length B) | None => Err ETooSmall end
+                 | Err e0 => Err e0
+                 end))).
+    { intros p ->. change (enc_list (enc_field (TPrim p)) l) with (enc_list (enc_prim p) l).
+      pose proof (enc_list_len (enc_field (TPrim p)) (TPrim p) (fmin (TPrim p)) (fmax (TPrim p))
+                    (fun v b => enc_field_len_bounds (TPrim p) v b Hwf) l) as Hlen.
+      change (enc_list (enc_field (TPrim p)) l) with (enc_list (enc_prim p) l) in Hlen.
+      cbn [fmax fmin as_field_max as_field_min bmax bmin] in *.
+      destruct (enc_list (enc_prim p) l) as [B|err]; cbn [psim]; [|split; [reflexivity | intros _; reflexivity]].
+      destruct (Hlen B eq_refl) as [HlenB _].
+      destruct (Hbulk buf off B Hl ltac:(lia) Hz) as [Eb Es]. split; [rewrite Eb; reflexivity|].
+      intros Hstd. assert (Hw : prim_bits p = 8 \/ prim_bits p = 16 \/ prim_bits p = 32 \/ prim_bits p = 64).
+      { unfold py_std_w in Hstd. destruct (Nat.eqb_spec (prim_bits p) 8), (Nat.eqb_spec (prim_bits p) 16),
+          (Nat.eqb_spec (prim_bits p) 32), (Nat.eqb_spec (prim_bits p) 64); cbn [orb] in Hstd; auto; discriminate Hstd. }
+      rewrite Es; [reflexivity | lia | lia |].
+      replace (length B) with (length l * prim_bits p) by lia. apply Nat.mod_mul. lia. }
+    destruct e as [p| | |]; try exact Hloop. cbn [py_array_kind].
+    destruct p as [|w s|w s|w s|w]; try exact Hloop.
+    - apply (Hgen PBool eq_refl).
+    - destruct (py_std_w w) eqn:Es; [apply (proj2 (Hgen (PU w s) eq_refl)); exact Es | exact Hloop].
+    - destruct (py_std_w w) eqn:Es; [apply (proj2 (Hgen (PS w s) eq_refl)); exact Es | exact Hloop].
+    - destruct (py_std_w w) eqn:Es; [apply (proj2 (Hgen (PF w s) eq_refl)); exact Es | exact Hloop].
+  Qed.
+
   Theorem pser_all : forall t, P_pser t.
   Proof.
     induction t as [p|e n IHe|e c IHe|u fs ext H] using ty_nested_ind; unfold P_pser; intros Hwf v buf off Hl Ha Hfit Hz.
@@ -204,6 +251,7 @@ Section PyRefine.
       destruct v; try reflexivity.
       destruct (Nat.eqb_spec (length l) n) as [En|En]; [|reflexivity]. subst n.
       change (as_field_enc enc_body e) with (enc_field e).
+      apply pw_array_sim; try assumption.
       apply pser_list; try assumption. apply pser_body_to_field. exact IHe.
     - (* variable array *)
       cbn [pw_body enc_body]. cbn [wf_ty align bmax] in *. fold (fmax e) in Hfit.
@@ -219,7 +267,9 @@ Section PyRefine.
       assert (Ha0 : (off + length pfx) mod align e = 0).
       { rewrite Hpl. destruct (align_cases e) as [A | A]; rewrite A in *; [apply Nat.mod_1_r | lia]. }
       pose proof (pser_list e Hwf (pser_body_to_field e IHe) l (stored buf off pfx) (off + length pfx)
-                    ltac:(rewrite stored_length; lia) Ha0 ltac:(lia) ltac:(apply stored_zero; [lia | exact Hz])) as S.
+                    ltac:(rewrite stored_length; lia) Ha0 ltac:(lia) ltac:(apply stored_zero; [lia | exact Hz])) as S0.
+      pose proof (pw_array_sim e l (stored buf off pfx) (off + length pfx) _ Hwf ltac:(rewrite stored_length; lia) ltac:(lia)
+                    ltac:(apply stored_zero; [lia | exact Hz]) S0) as S.
       destruct (enc_list (enc_field e) l) as [b|err] eqn:E2; cbn [bind psim] in *; [|exact S].
       apply pwrote_trans; [|exact S].
       pose proof (enc_list_len (enc_field e) e (fmin e) (fmax e) (fun v b => enc_field_len_bounds e v b Hwf) l b E2). lia.
@@ -274,14 +324,14 @@ Lemma zero_from_fresh' n : zero_from (repeat false n) 0.
 Proof. apply zero_from_fresh. Qed.
 
 (* ---- the Python serialization refinement, from the two laws ---- *)
-Theorem py_walk_ser_refines_on : forall Q u fs ext v cap, add_law Q (8 * cap) -> hdr_law Q (8 * cap) ->
+Theorem py_walk_ser_refines_on : forall Q u fs ext v cap, add_law Q (8 * cap) -> hdr_law Q (8 * cap) -> bulk_law Q (8 * cap) ->
   wf_ty (TComp u fs ext) = true -> bmax (TComp u fs ext) <= 8 * cap ->
   py_walk_ser Q enc_prim (TComp u fs ext) v cap = ser_spec (TComp u fs ext) v cap.
 Proof.
-  intros Q u fs ext v cap Ha Hh Hwf Hge. set (t := TComp u fs ext) in *. unfold py_walk_ser, ser_spec.
+  intros Q u fs ext v cap Ha Hh Hbk Hwf Hge. set (t := TComp u fs ext) in *. unfold py_walk_ser, ser_spec.
   destruct (Nat.ltb_spec (8 * cap) (bmax t)) as [Hlt|_]; [lia|].
   assert (HL : (8 * cap) mod 8 = 0) by lia.
-  pose proof (pser_all Q (8 * cap) HL Ha Hh t Hwf v (repeat false (8 * cap)) 0 (repeat_length _ _) eq_refl Hge
+  pose proof (pser_all Q (8 * cap) HL Ha Hh Hbk t Hwf v (repeat false (8 * cap)) 0 (repeat_length _ _) eq_refl Hge
                 (zero_from_fresh' _)) as S. unfold psim in S.
   destruct (enc_body t v) as [bits|e] eqn:E; [|rewrite S; reflexivity].
   unfold pwrote in S. rewrite S. cbn [bind plus]. f_equal.
